@@ -1,6 +1,6 @@
 CFG = {
     "modules": ["Parsley.Props.C03", "Parsley.Props.C03E2E", "Parsley.Props.C03E2EXref", "Parsley.Props.C03E2EObjStm", "Parsley.Props.C03E2EAll", "Parsley.Props.C03Render", "Parsley.Props.C03RenderX", "Parsley.Props.C03Enc",
-                "Parsley.Props.C03RenderDeep", "Parsley.Props.C03AnyFlate", "Parsley.Props.C03RenderFwd", "Parsley.Props.C03LenMember"],
+                "Parsley.Props.C03RenderDeep", "Parsley.Props.C03AnyFlate", "Parsley.Props.C03RenderFwd", "Parsley.Props.C03LenMember", "Parsley.Props.C03SelfRow"],
     "theorems": [
         "Parsley.C03.identity_mismatch_rejected", "Parsley.C03.identity_mismatch_rejected_second",
         "Parsley.C03.firstPass_reject_lifts", "Parsley.C03.firstPass_direct",
@@ -10,6 +10,8 @@ CFG = {
         "Parsley.C03.hybrid_hidden_gen0_witness",
         # follow-up C03_6 (generator strengthening): the /Length of an ordinary stream stored in an object stream
         "Parsley.C03.length_holder_in_objstm_witness",
+        # follow-up C03_8 (generator strengthening): the row a cross-reference stream object has for itself is never compared with its offset
+        "Parsley.C03.xrefstm_self_entry_unchecked_witness", "Parsley.C03.firstPass_skips_defined",
         # follow-up C03b: end to end
         "Parsley.C03.load_defines_exactly_classic", "Parsley.C03.load_defines_exactly_classic_fwd", "Parsley.C03.load_never_panics",
         "Parsley.C03.exFile_wf", "Parsley.C03.exFileF_wf",
@@ -186,6 +188,10 @@ CFG = {
             "its stream is read - model side: hybrid_refused_when_declared, stream_refused_when_flagged)",
         "(known finding)": "hybrid files whose hidden objects have generation-0 free entries lose those objects (#31): hybrid_hidden_gen0_witness; "
             "same root cause as C04-generation-changed",
+        "(known finding 3)": "xrefstm-self-entry-unchecked: the row a cross-reference stream object has for ITSELF (the section's stream; the /XRefStm stream object of a hybrid file) may point at another object: parse_objects skips entries of "
+            "identifiers that are already registered, and these objects are registered while the chain is walked - the file is ACCEPTED and loads as if the row were correct, against C03's second sentence. Outside identity_mismatch_rejected "
+            "(hypothesis: the entry's identifier is not yet defined); firstPass_skips_defined is the excluded branch; witness xrefstm_self_entry_unchecked_witness (Props/C03SelfRow.lean: 136-byte file, the oracle's reader DocSpec.headerAt spells (1,0) at the "
+            "offset of the row of (2,0), the load succeeds; the same mismatch on an ordinary object's row is rejected). Found by the `ret` family with B = the cross-reference stream object.",
         "(known finding 2)": "length-holder-in-objstm: a document in which an ORDINARY stream takes its /Length from an integer object stored in an object stream (legal: ISO 32000-1 7.5.7 "
             "only forbids this for the /Length of an object stream's own dictionary) is REFUSED - parse_objects opens the object streams after both passes over the file-level objects and "
             "the second pass exits on a stream whose length is still unknown. Found by the `lenc` / `lenh` generator families (every case of that shape); witness "
@@ -237,6 +243,9 @@ CFG = {
             "in all three layouts; in hybrid files additionally every placement of A's and B's entry in the table / in the /XRefStm stream as in-use rows (table entries are walked before the stream's); further targets: the other legal offset of A (start of padding / first digit), one byte into A's number, A's `endobj`, the section itself (`xref` keyword / the cross-reference stream object), "
             "the /XRefStm stream object, the header (offset 0: a comment, the first object is found); all must be REJECTED - that the case is a mismatch is decided on the bytes alone (DocSpec.headerAt: the identifier spelled at the entry's offset is not the entry's) - plus controls (nothing retargeted, every placement) that must load exactly; 859 cases per seed (thorough: four rounds); "
             "encoder Driver/C03.lean renderRevT = DocSpec.renderRev + (entries to set / add, numbers moved into the /XRefStm stream), equal to it without them; corpus/C03/retarget_one_entry.case: hand-built minimal instances (classic, forward-/Length stream as target, cross-reference stream, hybrid both directions, endobj / into the object / xref keyword / header) with controls; "
+            "SELF ROWS (32 more `ret` cases per seed, known class xrefstm-self-entry-unchecked): B = the cross-reference stream object itself (stream layout) / the /XRefStm stream object (hybrid; its row in the table or in that very stream), aimed at the offset of a plain object, a stream, a forward-/Length stream, the container, into an object, at an endobj, at the header: "
+            "must be rejected like every other mismatch; the unchanged code accepts them (entries of already registered identifiers are skipped) - the judge reports the known class only for exactly that shape (decided on the case: Driver/C03.lean isSelfRow) AND exactly the load 'as if the row were correct' (DocSpec.resolve of what the encoder wrote); any other accepted load is accepted-but-must-reject; "
+            "corpus/C03/known_xrefstm-self-entry-unchecked.case (hand-built `selfrow <hex> <exact load>` lines: the 136-byte witness file, the 170-byte first instance, a hybrid; judged by the same rule); "
             "every 4th document again with the offsets of two in-use "
             "entries exchanged (must be rejected); every 2nd with one corruption (truncate, alter/delete/insert a byte, replace a number by an extreme "
             "one, cut the middle) judged for correspondence and no panic. Oracle = DocSpec.resolve on what the encoder wrote (never the model); it also "
